@@ -20,6 +20,9 @@ pub enum HOp {
     Raw(usize, usize),        // point cloud i, take k items then drop
     Simple(usize, usize, u8), // point cloud i, take k items, option vector
     Blob(usize),
+    /// blob extraction into a caller-supplied writer that fails after k bytes (the operation fails; what
+    /// matters is that nothing of it survives in the reader)
+    BlobFailingSink(usize, usize),
     Meta,
 }
 
@@ -28,7 +31,25 @@ fn kind(op: &HOp) -> &'static str {
         HOp::Raw(..) => "raw",
         HOp::Simple(..) => "simple",
         HOp::Blob(..) => "blob",
+        HOp::BlobFailingSink(..) => "blob-failing-sink",
         HOp::Meta => "meta",
+    }
+}
+
+struct FailingSink {
+    left: usize,
+}
+impl std::io::Write for FailingSink {
+    fn write(&mut self, b: &[u8]) -> std::io::Result<usize> {
+        if self.left == 0 {
+            return Err(std::io::Error::new(std::io::ErrorKind::Other, "sink full"));
+        }
+        let n = b.len().min(self.left);
+        self.left -= n;
+        Ok(n)
+    }
+    fn flush(&mut self) -> std::io::Result<()> {
+        Ok(())
     }
 }
 
@@ -66,6 +87,13 @@ fn exec<T: std::io::Read + std::io::Seek>(rd: &mut E57Reader<T>, pcs: &[PointClo
                 Ok((n, d)) => format!("ok:{}:{:016x}", n, crate::json::fnv64(&d)),
                 Err(e) => format!("err:{}", e),
             },
+            HOp::BlobFailingSink(i, k) => {
+                let mut sink = FailingSink { left: *k };
+                match rd.blob(&blobs[*i], &mut sink) {
+                    Ok(n) => format!("ok:{}", n),
+                    Err(e) => format!("err:{}", err_variant(&e)),
+                }
+            }
             HOp::Raw(i, k) => match read_raw(rd, &pcs[*i], *k) {
                 Ok(rr) => format!("{}|{}", rr.items.iter().map(|p| raw_str(p)).collect::<Vec<_>>().join(";"), rr.end.render()),
                 Err(e) => format!("open-err:{}", e),
@@ -171,7 +199,14 @@ pub fn run(a: &Args, rep: &mut Reporter) {
                     let all = pcs[i].records as usize + 2;
                     HOp::Simple(i, *r.pick(&[0usize, 1, all / 2, all]), *r.pick(&[Opts::DEFAULT.0, 0, 63, 0b101010]))
                 }
-                5 | 6 if !blobs.is_empty() => HOp::Blob(r.usize(blobs.len())),
+                5 if !blobs.is_empty() => HOp::Blob(r.usize(blobs.len())),
+                6 if !blobs.is_empty() => {
+                    if r.bool() {
+                        HOp::Blob(r.usize(blobs.len()))
+                    } else {
+                        HOp::BlobFailingSink(r.usize(blobs.len()), *r.pick(&[0usize, 1, 100, 1019, 1020, 1500]))
+                    }
+                }
                 _ => HOp::Meta,
             }
         };
